@@ -22,6 +22,7 @@ type c13Case struct {
 	Bytes  []int           `json:"bytes"`
 	V      int             `json:"v"`
 	Class  string          `json:"class"`
+	Huge   int             `json:"huge"`
 }
 
 func runC13(raw json.RawMessage, w *Writer) {
@@ -31,6 +32,8 @@ func runC13(raw json.RawMessage, w *Writer) {
 	}
 	w.Emit(Ev{"ev": "reset", "class": c.Class})
 	switch c.Kind {
+	case "huge":
+		w.Emit(hugeAV1(c.Huge, c.Mtu))
 	case "payload":
 		p := &codecs.AV1Payloader{}
 		var frags [][]byte
